@@ -244,6 +244,7 @@ def run(run):
                        'adapter table vmon/adapters.py (pymodbus attribute <-> spec field)']
     idx = 0
     # (0) dispatch: every function code / sub-function through both decoders
+    custom_registration(run)
     if run.mine(0):
         dispatch(run)
     # (i) boundary sweep of the 16-bit fields
@@ -387,7 +388,79 @@ def dispatch(run):
                               'unsupported fc %d maps to %s' % (fc, got))
 
 
+def custom_registration(run):
+    """The documented extension point: decoder.register(cls) / custom_functions.  A class registered on ONE decoder object
+    (a new function code, an additional diagnostic sub-function, an override of a standard code) must decode on that decoder,
+    must leave every other standard PDU on that decoder alone, and must not exist for any other decoder object - created before
+    or after.  (Runs first: a registration that leaks into shared tables also shows in everything decoded later in this run.)"""
+    import struct as _st
+    import pymodbus.diag_message as dm
+
+    def mk(base, fc, sub=None):
+        if sub is not None:
+            # an additional diagnostic sub-function: everything but the code is inherited from the library's base class
+            return type('Custom%s_%04x' % (base.__name__, sub), (base,), {'sub_function_code': sub})
+        ns = {'function_code': fc, '_rtu_frame_size': 8, 'encode': lambda self: b'', 'decode': lambda self, data: None,
+              '__init__': lambda self, *a, **k: base.__init__(self, **k)}
+        return type('Custom%s_%02x' % (base.__name__, fc), (base,), ns)
+    for d, Dec, Base, DiagBase in ((REQ, ServerDecoder, pp.ModbusRequest, dm.DiagnosticStatusRequest), (RSP, ClientDecoder, pp.ModbusResponse, dm.DiagnosticStatusResponse)):
+        before = Dec()
+        dec = Dec()
+        new_fc = mk(Base, 0x45)
+        new_sub = mk(DiagBase, 8, 0x0042)
+        override = mk(Base, 3)
+        case = {'op': 'custom-registration', 'dir': d}
+        try:
+            for c in (new_fc, new_sub, override):
+                dec.register(c)
+        except Exception as e:  # noqa
+            run.violation('register:raised:%s' % d, case, 'register() raised %r' % (e,))
+            continue
+        after = Dec()
+        run.count('registration_checks')
+        probs = []
+        # on the decoder that got the registrations
+        if dec.lookupPduClass(0x45) is not new_fc:
+            probs.append('registered function code 0x45 is not found on its decoder')
+        if dec.lookupPduClass(3) is not override:
+            probs.append('the class registered for function code 3 does not override the standard one on its decoder')
+        for (dd, fc), cls in A.CLASS.items():
+            if dd == d and fc not in (3, 0x45) and dec.lookupPduClass(fc) is not cls:
+                probs.append('after register(), function code %d on the same decoder maps to %s' % (fc, dec.lookupPduClass(fc)))
+        table = A.DIAG_REQ if d == REQ else A.DIAG_RSP
+        for sub, cls in sorted(table.items()):
+            pdu = bytes([8]) + _st.pack('>HH', sub, 0)
+            for which, dx in (('the decoder that registered a custom sub-function', dec), ('a decoder created before', before), ('a decoder created afterwards', after)):
+                try:
+                    o = dx.decode(pdu)
+                except Exception as e:  # noqa
+                    o = e
+                if type(o) is not cls:
+                    probs.append('diagnostic sub-function %#06x decodes to %s on %s' % (sub, type(o).__name__, which))
+        try:
+            o = dec.decode(bytes([8]) + _st.pack('>HH', 0x0042, 0))
+            if type(o) is not new_sub:
+                probs.append('the registered diagnostic sub-function 0x0042 decodes to %s' % type(o).__name__)
+        except Exception as e:  # noqa
+            probs.append('decoding the registered sub-function raised %r' % (e,))
+        # on other decoder objects
+        for which, dx in (('created before', before), ('created afterwards', after), ('the shared module-level one', decoder(d))):
+            if dx.lookupPduClass(0x45) is new_fc:
+                probs.append('a class registered on one decoder is known to a decoder %s' % which)
+            for (dd, fc), cls in A.CLASS.items():
+                if dd == d and dx.lookupPduClass(fc) is not cls:
+                    probs.append('function code %d on a decoder %s maps to %s' % (fc, which, dx.lookupPduClass(fc).__name__))
+        run.case(h64(('custom-registration', d)), True, sample={'op': 'custom registration', 'dir': d, 'verdict': 'isolated' if not probs else probs[:3]},
+                 sample_class=('custom-registration', d))
+        if probs:
+            run.violation('register:%s' % d, case, '; '.join(probs[:6]))
+
+
 def replay(run, case):
+    if case.get('op') == 'custom-registration':
+        custom_registration(run)
+        run.evaluations += 1
+        return
     if case.get('op') == 'dispatch':
         dispatch(run)
         run.evaluations += 1
